@@ -4,7 +4,12 @@ Oracle: specs/Autodiscover.tla.  `Selected(entry, suffix)` = a *file* whose name
 directory part starting with "_", name not starting with "_" unless it is "__init__.py", no part starting
 with "."; `DotPath` = prefix (path of the component directory from BASE_DIR, or app package name + app_dirs
 entry) and path parts joined by ".", extension removed, final "__init__" dropped; `Loadable` = when Python's
-import system loads exactly that file under that dotted path.
+import system loads exactly that file under that dotted path; `Searched(cfg, roots, k)` = WHICH directories are
+component directories under a configuration: the elements of COMPONENTS.dirs when it is given (none for the
+empty list - "Set to empty list to disable global components directories", ComponentsSettings.dirs), else the
+legacy STATICFILES_DIRS when non-empty, else BASE_DIR/components; <app>/<name> for every name of app_dirs
+(default "components"; none for the empty list).  Directories that exist but are not searched must contribute
+nothing (get_component_files) and must not be imported (autodiscover, start-up).
 
 spec -> code: MC_C20 - TLC enumerates every tree of <= MaxEntries entries (11 directories x 21 file names,
               5 explicit directory names incl. a directory called "e.py") x 9 ways of configuring the root
@@ -14,9 +19,21 @@ spec -> code: MC_C20 - TLC enumerates every tree of <= MaxEntries entries (11 di
               ".js", ".pyx"), checks the theorems and exports each state; the harness materialises it,
               calls get_component_files, imports every file the specification calls Loadable and calls
               autodiscover() where the specification says it can be called.
-code -> spec: seeded random sessions with several roots at once (dirs + apps), deeper trees, entries
-              created and removed between scans, a directory listed twice, `load` and `autodiscover` events;
-              validated in one TLC batch by Trace_C20.
+              Second family ("cfg"): nine candidate directories (comps, outer/comps, assets, lib/more, the
+              default components, four app directories) all exist with the same small tree; every
+              combination of COMPONENTS.dirs (not given / [] / one / two incl. tuple form / a directory
+              STATICFILES_DIRS lists too / the default directory) x STATICFILES_DIRS (empty / plain / tuple /
+              two entries / the default directory) x app_dirs (not given / [] / one / two names) x COMPONENTS
+              written as dict / dict with None / ComponentsSettings is exported with the expected result.
+              A sample of the exported cases is started for real (fresh interpreter, autodiscover=True):
+              one per root variant and one per stratum dirs {not given, [], non-empty} x STATICFILES_DIRS
+              {empty, non-empty}.
+code -> spec: seeded random sessions with several candidate directories at once (listed in COMPONENTS.dirs,
+              in STATICFILES_DIRS, in both, the default directory, app directories, directories mentioned
+              nowhere) under a random configuration (dirs not given / [] / non-empty x STATICFILES_DIRS empty /
+              non-empty x app_dirs not given / [] / names; str, Path, (prefix, path) forms), deeper trees,
+              entries created and removed between scans, a directory listed twice, `load` and `autodiscover`
+              events; validated in one TLC batch by Trace_C20.
 
 Everything runs in-process: get_component_files reads settings lazily, so BASE_DIR / COMPONENTS /
 STATICFILES_DIRS are re-pointed per case; the three generated apps are installed once with
@@ -100,6 +117,7 @@ class World:
         self._ov = override_settings(INSTALLED_APPS=("django_components",) + tuple(n for n, _ in APPS))
         self._ov.enable()
         self.active: List[Path] = []          # root directories of the current case, index k-1
+        self.materialised: Optional[str] = None   # signature of the directories + trees replay_row left on disk
 
     def close(self) -> None:
         self._ov.disable()
@@ -123,6 +141,7 @@ class World:
 
     def reset(self, roots: List[Dict[str, Any]]) -> None:
         """Remove every root of the previous case, create the (empty) roots of this one."""
+        self.materialised = None
         for d in self.active:
             shutil.rmtree(d, ignore_errors=True)
         for top in ("comps", "outer", "assets", "components", "lib", "ui"):
@@ -292,10 +311,15 @@ _exports: Dict[str, Tuple[List[Any], int, int]] = {}
 
 def replay_row(chk: Check, world: World, row: Dict[str, Any]) -> None:
     roots = row["roots"]
-    world.reset(roots)
-    for k, tree in enumerate(row["trees"], 1):
-        for e in tree:
-            world.mk(k, e["kind"], e["parts"])
+    # consecutive cases over the same directories and trees (the configuration family) share the files on disk
+    sig = json.dumps([[str(world.root_dir(r)) for r in roots],
+                      [sorted([e["kind"], e["parts"]] for e in t) for t in row["trees"]]])
+    if world.materialised != sig:
+        world.reset(roots)
+        for k, tree in enumerate(row["trees"], 1):
+            for e in tree:
+                world.mk(k, e["kind"], e["parts"])
+        world.materialised = sig
     case = {"kind": "tree", "row": row}
     nontrivial = bool(row["exp"]) or any(row["trees"])
     chk.count([row["label"], row["cfg"], [[r["prefix"], r["src"]] for r in roots], row["sfx"], row["trees"]],
@@ -709,8 +733,11 @@ def run(tier: str) -> int:
     finally:
         world.close()
     chk.cov["exhaustive"] = True
-    chk.cov["rule"] = ("every well-formed state of MC_C20 (tree x root variant x suffix) materialised and compared with "
-                       "get_component_files, imports and autodiscover(); random multi-root sessions validated by "
+    chk.cov["rule"] = ("every well-formed state of MC_C20 (tree x root variant x suffix; and the configuration family: 9 "
+                       "candidate directories x COMPONENTS.dirs not given / [] / 4 lists x STATICFILES_DIRS empty / 4 lists x "
+                       "app_dirs not given / [] / 3 lists x 3 ways of writing COMPONENTS x suffix) materialised and compared "
+                       "with get_component_files, imports and autodiscover(); sampled cases started in a fresh interpreter; "
+                       "random multi-directory sessions under random configurations validated by "
                        "Trace_C20. Non-trivial = the tree has at least one entry; distinct by hash of the case")
     chk.assumptions += [
         "dotted paths are compared only where DotDetermined (no dot in a directory name or stem)",
@@ -718,6 +745,7 @@ def run(tier: str) -> int:
         "names with '..' or a trailing dot, suffixes without leading dot, nested/overlapping roots, roots outside "
         "BASE_DIR, symlinks are never generated",
         "entries of django_components' own components/ app directory are projected away",
+        "STATICFILES_DIRS 'not set' is Django's default (the empty list); app_dirs names are single path components",
     ]
     return chk.finish()
 
@@ -826,8 +854,19 @@ def selftest(tier: str) -> int:
     def empty_dirs_as_unset(data):             # `if not dirs` instead of `if dirs is None`
         return {k: v for k, v in data.items() if not (k == "dirs" and not v)}
 
-    def empty_app_dirs_as_unset(data):
-        return {k: v for k, v in data.items() if not (k == "app_dirs" and not v)}
+    class AppDirsProxy:
+        """app_settings as the loader sees it, with APP_DIRS passed through `f` (get_component_files reads the
+        app directories itself, not through get_component_dirs)."""
+
+        def __init__(self, real, f):
+            self._real, self._f = real, f
+
+        def __getattr__(self, name):
+            v = getattr(self._real, name)
+            return self._f(list(v)) if name == "APP_DIRS" else v
+
+    def app_dirs_with(f):
+        return lambda: patch(ld, "app_settings", AppDirsProxy(ld.app_settings, f))
 
     def static_added(orig, include_apps):      # STATICFILES_DIRS searched in addition to COMPONENTS.dirs
         from django.conf import settings
@@ -852,22 +891,15 @@ def selftest(tier: str) -> int:
         d = (Path(settings.BASE_DIR) / "components").resolve()
         return res + [d] if not given and settings.STATICFILES_DIRS and d not in res else res
 
-    def app_default_name_always(orig, include_apps):   # <app>/components searched although app_dirs names others
-        from django.apps import apps
-        res = list(orig(include_apps))
-        for conf in apps.get_app_configs():
-            d = Path(conf.path) / "components"
-            if include_apps and d.exists() and d not in res:
-                res.append(d)
-        return res
-
     probes = [
         ("empty-COMPONENTS.dirs-treated-as-not-given", with_setting(empty_dirs_as_unset)),
-        ("empty-app_dirs-treated-as-not-given", with_setting(empty_app_dirs_as_unset)),
+        ("empty-app_dirs-treated-as-not-given", app_dirs_with(lambda v: v or ["components"])),
         ("STATICFILES_DIRS-searched-besides-COMPONENTS.dirs", dirs_with(static_added)),
         ("default-components-dir-always-searched", dirs_with(default_always)),
         ("legacy-dirs-extend-the-default-dir", dirs_with(default_with_static)),
-        ("app-components-dir-searched-besides-app_dirs", dirs_with(app_default_name_always)),
+        ("app-components-dir-searched-besides-app_dirs",
+         app_dirs_with(lambda v: v if "components" in v else v + ["components"])),
+        ("only-first-app_dirs-name-searched", app_dirs_with(lambda v: v[:1])),
         ("underscore-dirs-not-skipped", probe_search(lambda ps, n: not (n.startswith("_") and n != "__init__.py"))),
         ("underscore-check-top-level-dir-only",
          probe_search(lambda ps, n: not (ps[:1] and ps[0].startswith("_")) and not (n.startswith("_") and n != "__init__.py"))),
